@@ -45,7 +45,6 @@ RULE = ("random histories (12-26 ops) in which about a quarter of the operations
 
 KNOWN_SPACE_FORMULA = "C11-space-formula-discarded-before-validation"
 KNOWN_SOURCELESS = "C11-sourceless-function-formula"
-KNOWN_MREF_NAME = "C11-model-ref-invalid-name"
 
 
 def sourceless_function(obj):
@@ -183,14 +182,9 @@ class H(S.Hooks):
             for cn in s.cells:
                 if not valid_name(cn):
                     out.fail("cells name %r in %s is not a valid identifier" % (cn, p), hist)
-        for rn in api.bad_ref_names(live.m):
-            out.fail("reference name %r is not a valid identifier" % rn, hist)
-        for rn in api.bad_model_ref_names(live.m):
-            # known finding: `setattr(model, name, v)` does not look at the name (UserSpace.set_attr does).  Recognised
-            # only for a model-level reference that a set_mref of this history created under exactly that name
-            made = any(o[0] == "set_mref" and o[1] == rn for o in ops[:k + 1])
-            out.fail("model-level reference name %r is not a valid identifier" % rn, hist,
-                     key=KNOWN_MREF_NAME if made else None)
+        # The property's names clause speaks of "user-created spaces or cells": names of references (space level or
+        # model level) are not judged here.  (An earlier version applied the clause to references too and reported
+        # `setattr(model, "1a", v)`, which modelx accepts: more than the property states - DESIGN 6.4, false alarms.)
 
 
 def _diff(a, b):
